@@ -20,6 +20,16 @@ int sched(const Enabled& en);
 inline int sched() { return sched([] { return int(EN); }); }
 // the calling thread just yielded / slept (spin loop): deprioritised until somebody else moves
 void mark_yield();
+// directed path forcing: the calling logical thread's k-th scheduling point from now (k >= 1; typically inside library
+// code the client cannot instrument) is additionally blocked until `until()` is non-zero.  A gate that never opens shows
+// up as a deadlock verdict, so only use it in directed scripts whose gate is opened unconditionally by another thread.
+void gate_at(int k, const Enabled& until);
+// a second, independent gate of the same kind (so that one library call can be parked at two different points); the two
+// gates must not name the same scheduling point
+void gate_also(int k, const Enabled& until);
+// true while logical thread `tid` is parked at the scheduling point its gate applies to (lets another thread's
+// enabledness condition wait for "tid has reached that point")
+bool at_gate(int tid);
 
 // scheduler-made nondeterministic choice in [0,n); recorded for replay
 int choose(int n, const char* what);
@@ -46,6 +56,10 @@ bool is_registered(const void* p);
 void tap_add(const void* p, size_t n);   // plain loads/stores inside [p,p+n) become pld/pst events
 void tap_remove(const void* p);
 void tap_clear();
+// opt-in, both off by default: value_names — 8-byte values of pld/pst are printed as canonical names (name_of of the
+// value taken as a pointer: a registered object / range, "null", or "?k") instead of numbers; sched_points — every tapped
+// access is a scheduling point, taken before the access executes
+void tap_opts(bool value_names, bool sched_points);
 
 // ---- running -----------------------------------------------------------------------------------
 struct Config {
@@ -55,6 +69,7 @@ struct Config {
     int max_steps = 20000;    // per run; exceeded => livelock/step-limit verdict
     int spurious_budget = 2;  // spurious cv wake-ups per run
     int casfail_budget = 2;   // spurious weak-CAS failures per run
+    int latewake_budget = 2;  // notified timed cv waits that nevertheless report a time-out, per run
     int stick_pct = 70;       // sticky strategy: probability (percent) to continue the same thread
     std::vector<int> replay;  // strategy 3: recorded decisions
 };
